@@ -144,18 +144,15 @@ def check(ctx):
     if len(sw) != 1:
         ctx.fail('C14.4', ctx.site(cb), 'visitor does not classify the element by its case', key='C14.4|classify')
         return
-    regs = arm_regions(cb, sw[0][0])
     variants = adt_variants(F, CASE)
-    tv = dict((v, bb) for v, bb in cb.term(sw[0][0])['targets'])
     markers = {}
+    dterm = strip_sites(sw[0][1])
     for idx, vname in enumerate(variants):
-        key = idx if idx in tv else 'otherwise'
-        tgt, reg = regs[key]
+        # the marker bytes pushed when the element's case is this variant (finite valuation of the case discriminant; a
+        # marker computed by a helper / carried in an Option is read on the paths of that valuation only)
         seq = []
-        for bi in sorted(reg):
-            c = cb.callee(bi)
-            if c is not None and c.name == 'push':
-                args = ctb.call_args(bi)
+        for bi, c, args in calls_under(cb, ctb, {dterm: idx}):
+            if c is not None and c.name == 'push' and len(args) == 2:
                 seq.append(const_int(args[1]))
         markers[vname] = tuple(seq)
     obsc = [v for v in ('Elided', 'Encrypted', 'Compressed') if v in variants]
